@@ -298,9 +298,28 @@ fn verdict_set(rules: &yara_x::Rules, data: &[u8], fast: bool) -> Result<HashSet
     catch(AssertUnwindSafe(|| {
         let mut s = yara_x::Scanner::new(rules);
         s.fast_scan(fast);
+        s.set_timeout(std::time::Duration::from_secs(SCAN_TIMEOUT_S));
         let r = s.scan(data).map_err(|e| e.to_string()).unwrap();
         r.matching_rules().map(|r| r.identifier().to_string()).collect::<HashSet<_>>()
     }))
+}
+
+/// a scan of a few bytes that takes longer than this is reported as a failure of the case
+const SCAN_TIMEOUT_S: u64 = 8;
+/// a case that makes no progress for this long (compiler or scanner not returning) ends the run with a named case
+const WATCHDOG_S: u64 = 100;
+static CURRENT: std::sync::Mutex<Option<(std::time::Instant, String)>> = std::sync::Mutex::new(None);
+fn now_at(what: String) { *CURRENT.lock().unwrap() = Some((std::time::Instant::now(), what)); }
+fn start_watchdog() {
+    std::thread::spawn(|| loop {
+        std::thread::sleep(std::time::Duration::from_secs(2));
+        if let Some((t, what)) = CURRENT.lock().unwrap().clone() {
+            if t.elapsed().as_secs() > WATCHDOG_S {
+                println!("WATCHDOG: no result after {} s (compiler or scanner does not return) for: {}", WATCHDOG_S, what);
+                std::process::exit(4);
+            }
+        }
+    });
 }
 
 struct Out { shards: Shards, stats: Stats, distinct: HashSet<String>, samples: Vec<String>, dump: Option<String>, coq: bool }
@@ -893,7 +912,7 @@ fn gen_or_matches_case(rng: &mut Rng, idx: usize, out: &mut Out) {
     let pick_lhs = |rng: &mut Rng| -> Lhs {
         loop {
             match rng.below(9) {
-                0..=2 => return Lhs::Global(rng.below(if rng.chance(1, 2) { 2 } else { 4 }) as usize),
+                0..=2 => { let m = if rng.chance(1, 2) { 2 } else { 4 }; return Lhs::Global(rng.below(m) as usize) }
                 3 if n_with > 0 => return Lhs::WithId(rng.below(n_with as u64) as usize),
                 4 if wrapper == 2 => return Lhs::LoopVar,
                 5 => return Lhs::Field(if rng.chance(1, 2) { "string_foo" } else { "string_bar" }),
@@ -906,9 +925,23 @@ fn gen_or_matches_case(rng: &mut Rng, idx: usize, out: &mut Out) {
     // plain identifiers on the left are what a careless key cannot tell apart: make them frequent
     for _ in 0..n_ops {
         let l = pick_lhs(rng);
-        // the regexp is aimed at one of the values that occur in this scan (or at nothing)
-        let target = match rng.below(8) { 0 => "foo".to_string(), 1 => "bar".to_string(), 2 => "FOXT".to_string(), 3 => "nothing".to_string(), 4 => "const1".to_string(), 5 => "AB".to_string(), _ => gvals[rng.below(4) as usize].clone() };
-        let re = match rng.below(3) { 0 => format!("/^{}/", target), 1 => format!("/{}$/", target), _ => format!("/^{}$/i", target) };
+        // the regexp is aimed at the value of this operand, at the value of ANOTHER left operand
+        // (so that evaluating it on the wrong operand gives a different answer), or at nothing
+        let value_of = |l: &Lhs, rng: &mut Rng| -> String {
+            let resolve = |v: &String| if let Some(g) = v.strip_prefix("@g") { gvals[g.parse::<usize>().unwrap()].clone() } else { v.clone() };
+            match l { Lhs::Global(g) => gvals[*g].clone(), Lhs::WithId(j) => resolve(&with_defs[*j].1),
+                      Lhs::LoopVar => resolve(&loop_items[rng.below(loop_items.len() as u64) as usize].1),
+                      Lhs::Field(f) => if *f == "string_foo" { "foo".into() } else { "bar".into() },
+                      Lhs::Call(c) => if c.contains("get_foo") { "foo".into() } else if c.contains("uppercase") { let g: usize = c[c.len() - 2..c.len() - 1].parse().unwrap(); gvals[g].to_uppercase() } else { "AB".into() },
+                      Lhs::Lit(t) => t.clone() }
+        };
+        let target = match rng.below(10) {
+            0..=4 => value_of(&l, rng),
+            5..=7 if !ops.is_empty() => { let o = ops[rng.below(ops.len() as u64) as usize].0.clone(); value_of(&o, rng) }
+            8 => "nothing".to_string(),
+            _ => gvals[rng.below(4) as usize].clone(),
+        };
+        let re = match rng.below(3) { 0 => format!("/^{}/", target), 1 => format!("/{}$/", target), _ => format!("/^{}$/", target) };
         ops.push((l, re));
     }
     // make "only a later operand is true" frequent: give the first operand's global a value its regexp rejects
@@ -929,12 +962,15 @@ fn gen_or_matches_case(rng: &mut Rng, idx: usize, out: &mut Out) {
     if !ok { out.stats.inc("reset:rejected(generator)"); out.dump_line(format!("reset {} rejected :: {}", idx, main_cond)); return; }
     let rules = c.build();
     let data: Vec<u8> = b"ABCDEF".to_vec();
-    let v = catch(AssertUnwindSafe(|| {
+    let scanned = catch(AssertUnwindSafe(|| {
         let mut s = yara_x::Scanner::new(&rules);
+        s.set_timeout(std::time::Duration::from_secs(SCAN_TIMEOUT_S));
         for i in 0..4 { s.set_global(&format!("gs{}", i), gvals[i].as_str()).unwrap(); }
         let r = s.scan(&data).unwrap();
         r.matching_rules().map(|r| r.identifier().to_string()).collect::<HashSet<_>>()
-    })).unwrap_or_default();
+    }));
+    let errors = scanned.is_err() as usize;
+    let v = scanned.unwrap_or_default();
     let verdict = v.contains("r_main");
     let alone: Vec<bool> = (0..ops.len()).map(|i| v.contains(&format!("r_op{}", i))).collect();
     // identity of the left operand: same source text = same expression
@@ -945,10 +981,10 @@ fn gen_or_matches_case(rng: &mut Rng, idx: usize, out: &mut Out) {
     if plain >= 2 { out.stats.inc("reset:two_or_more_plain_left_operands"); }
     if alone.iter().any(|b| *b) { out.stats.inc("reset:some_operand_true"); }
     if !alone.first().copied().unwrap_or(false) && alone.iter().skip(1).any(|b| *b) { out.stats.inc("reset:only_a_later_operand_true"); }
-    let class = if verdict != alone.iter().any(|b| *b) { if plain >= 2 { "regexp-set:or-differs-from-operands:plain-left-operands" } else { "regexp-set:or-differs-from-operands" } } else { "" };
-    let case = format!("KReSet {} {} {}", coq_list(&ids, |i| coq_nat(*i)), coq_list(&alone, |b| coq_bool(*b).to_string()), coq_bool(verdict));
-    let replay = format!("{{\"kind\":\"reset\",\"index\":{},\"class\":\"{}\",\"condition\":{},\"globals\":{},\"data_hex\":\"{}\",\"verdict\":{},\"operands_alone\":{}}}",
-        idx, class, json_str(&main_cond), json_str(&format!("{:?}", gvals)), hex(&data), verdict, json_str(&format!("{:?}", alone)));
+    let class = if errors > 0 { "regexp-set:scan-fails" } else if verdict != alone.iter().any(|b| *b) { if plain >= 2 { "regexp-set:or-differs-from-operands:plain-left-operands" } else { "regexp-set:or-differs-from-operands" } } else { "" };
+    let case = format!("KReSet {} {} {} {}", coq_list(&ids, |i| coq_nat(*i)), coq_list(&alone, |b| coq_bool(*b).to_string()), coq_bool(verdict), coq_nat(errors));
+    let replay = format!("{{\"kind\":\"reset\",\"index\":{},\"class\":\"{}\",\"condition\":{},\"globals\":{},\"data_hex\":\"{}\",\"verdict\":{},\"operands_alone\":{},\"scan_errors\":{}}}",
+        idx, class, json_str(&main_cond), json_str(&format!("{:?}", gvals)), hex(&data), verdict, json_str(&format!("{:?}", alone)), errors);
     out.dump_line(format!("reset {} v={} alone={:?} :: {}", idx, verdict as u8, alone, main_cond));
     out.push(case, replay, Some(format!("reset:{}", main_cond)));
 }
@@ -967,7 +1003,8 @@ fn gen_hoist_case(rng: &mut Rng, idx: usize, out: &mut Out) {
     let invs: Vec<String> = (0..k).map(|_| match rng.below(5) { 0 => "uint8(0) == 0x2e".to_string(), 1 => "uint8(1) == 0x2e".to_string(), 2 => "filesize > 4".to_string(),
                                                              3 => "uint16(2) == 0x2e2e".to_string(), _ => format!("uint8({}) != 0x41", rng.below(4)) }).collect();
     // one nested statement that owns variables and uses the outer loop variable
-    let kind = rng.below(9);
+    let kind = rng.below(11);
+    let pv = match rng.below(5) { 0 => "! >= 4", 1 => "# == 1", 2 => "@ > 3", 3 => "$", _ => "@ + ! <= 9" };
     let nested = match kind {
         0 => format!("for any j in (0..{v}) : (j + 1 == {v})"),
         1 => format!("for any x in ({v}, {v} + 1) : (x == 5)"),
@@ -977,7 +1014,11 @@ fn gen_hoist_case(rng: &mut Rng, idx: usize, out: &mut Out) {
         5 => format!("1 of ($a, $b) at {v}"),
         6 => format!("with t = {v} * 2 : (t == 10)"),
         7 => format!("2 of ({v} == 5, uint8(0) == 0x2e, {v} > 3)"),
-        _ => format!("for all j in (1..2) : (any of ($a, $b) in ({v}..{v} + j))"),
+        8 => format!("for all j in (1..2) : (any of ($a, $b) in ({v}..{v} + j))"),
+        // a percentage quantifier computed from the loop variable (three forms of `of` / `for..of`)
+        9 => match rng.below(3) { 0 => format!("({v} * 20)% of ($a, $b)"), 1 => format!("for ({v} * 20)% of ($a, $b) : ($)"), _ => format!("({v} * 10 + 16)% of (uint8(0) == 0x2e, {v} == 5, filesize > 100)") },
+        // #, @, !, $ of the pattern a `for..of` iterates over, inside a `for..in`
+        _ => match rng.below(3) { 0 => format!("for all of ($a, $b) : ({pv} and {v} >= 0)"), 1 => format!("for all of ($a, $b) : ({pv})"), _ => format!("for any of ($a, $b) : ({pv} and @ == {v})") },
     };
     let tail = match rng.below(3) { 0 => format!(" and {} == 5", v), 1 => format!(" and {} >= 0", v), _ => String::new() };
     let mut parts = invs.clone();
@@ -992,15 +1033,17 @@ fn gen_hoist_case(rng: &mut Rng, idx: usize, out: &mut Out) {
         built.push(c.build());
     }
     let bufs: Vec<Vec<u8>> = vec![b".....aaaa.....".to_vec(), b".....bbbb.....".to_vec(), b"....aaaa......".to_vec(), b"..aaaa.bbbb".to_vec(), b"A....aaaa".to_vec(), b"..".to_vec()];
-    let vs: Vec<Vec<bool>> = built.iter().map(|r| bufs.iter().map(|b| verdict_set(r, b, false).map(|s| s.contains("h")).unwrap_or(false)).collect()).collect();
-    let names = ["for-in-range", "for-in-tuple", "for-in-map", "for-of", "of-in-range", "of-at", "with", "of-expr-tuple", "for-in+of"];
+    let mut errs: Vec<String> = vec![];
+    let vs: Vec<Vec<bool>> = built.iter().enumerate().map(|(ci, r)| bufs.iter().map(|b| match verdict_set(r, b, false) { Ok(s) => s.contains("h"),
+        Err(e) => { errs.push(format!("optimisation={} data={}: {}", ci == 1, hex(b), e.chars().take(120).collect::<String>())); false } }).collect()).collect();
+    let names = ["for-in-range", "for-in-tuple", "for-in-map", "for-of", "of-in-range", "of-at", "with", "of-expr-tuple", "for-in+of", "percentage-quantifier", "for-of-pattern-var"];
     out.stats.inc(&format!("hoist:nested:{}", names[kind as usize]));
     out.stats.inc(&format!("hoist:invariants:{}", k));
     if vs[0].iter().any(|b| *b) { out.stats.inc("hoist:true_on_some_buffer"); }
-    let class = if vs[0] != vs[1] { format!("hoisting:verdict-differs:{}", names[kind as usize]) } else { String::new() };
-    let case = format!("KHoist {} {}", coq_list(&vs[0], |b| coq_bool(*b).to_string()), coq_list(&vs[1], |b| coq_bool(*b).to_string()));
-    let replay = format!("{{\"kind\":\"hoist\",\"index\":{},\"class\":\"{}\",\"rule\":{},\"buffers_hex\":{},\"unoptimised\":{},\"optimised\":{}}}", idx, class, json_str(&src),
-        json_str(&bufs.iter().map(|b| hex(b)).collect::<Vec<_>>().join(",")), json_str(&format!("{:?}", vs[0])), json_str(&format!("{:?}", vs[1])));
+    let class = if !errs.is_empty() { format!("hoisting:scan-fails:{}", names[kind as usize]) } else if vs[0] != vs[1] { format!("hoisting:verdict-differs:{}", names[kind as usize]) } else { String::new() };
+    let case = format!("KHoist {} {} {}", coq_list(&vs[0], |b| coq_bool(*b).to_string()), coq_list(&vs[1], |b| coq_bool(*b).to_string()), coq_nat(errs.len()));
+    let replay = format!("{{\"kind\":\"hoist\",\"index\":{},\"class\":\"{}\",\"rule\":{},\"buffers_hex\":{},\"unoptimised\":{},\"optimised\":{},\"scan_errors\":{}}}", idx, class, json_str(&src),
+        json_str(&bufs.iter().map(|b| hex(b)).collect::<Vec<_>>().join(",")), json_str(&format!("{:?}", vs[0])), json_str(&format!("{:?}", vs[1])), json_str(&errs.join(" | ")));
     out.dump_line(format!("hoist {} u={:?} :: {}", idx, vs[0], cond));
     out.push(case, replay, Some(format!("hoist:{}", cond)));
 }
@@ -1020,6 +1063,7 @@ fn run(args: &[String]) -> i32 {
     let mut out = Out { shards: Shards::new(Path::new(&out_dir), prelude, 40), stats: Stats::default(), distinct: HashSet::new(), samples: vec![],
                         dump: if dump_path.is_some() { Some(String::new()) } else { None }, coq };
     let mut rng = Rng::new(seed);
+    start_watchdog();
     // shares of the budget: fold 45 %, r53 10 %, bounds 25 %, scan 20 % (a scan rule set yields 3 cases)
     let n_fold = n * 45 / 100; let n_r53 = n / 10; let n_bounds = n / 4; let n_scan_sets = (n / 5 / 3).max(2);
 
@@ -1031,6 +1075,7 @@ fn run(args: &[String]) -> i32 {
         while pending.len() < 25 { let big = frng.chance(3, 5); let depth = 1 + frng.below(3) as u32; pending.push(gen_bexp(&mut frng, depth, big)); }
         let batch: Vec<BExp> = pending.drain(..25.min(pending.len())).collect();
         let datas = vec![fold_data(&mut frng), fold_data(&mut frng)];
+        now_at(format!("constant-folding batch at {} (seed {})", done, seed));
         run_fold_batch(&batch, &datas, &mut out, done);
         done += batch.len();
     }
@@ -1039,16 +1084,17 @@ fn run(args: &[String]) -> i32 {
     gen_r53(&mut rrng, &mut out, n_r53);
     // KBounds
     let mut brng = rng.fork();
-    for i in 0..n_bounds { gen_bounds_case(&mut brng, i, &mut out); }
+    for i in 0..n_bounds { now_at(format!("pruning case {} (seed {})", i, seed)); gen_bounds_case(&mut brng, i, &mut out); }
     // KScan
     let mut srng = rng.fork();
     for (i, specs) in corpus_scan_specs().into_iter().enumerate() { scan_fixed(&specs, 1000 + i, &mut out); }
-    for i in 0..n_scan_sets { gen_scan_cases(&mut srng, i, &mut out); }
+    for i in 0..n_scan_sets { now_at(format!("fast-scan rule set {} (seed {})", i, seed)); gen_scan_cases(&mut srng, i, &mut out); }
     // KReSet / KHoist
     let mut mrng = rng.fork();
-    for i in 0..n / 8 { gen_or_matches_case(&mut mrng, i, &mut out); }
+    for i in 0..n / 8 { now_at(format!("regexp-set case {} (seed {})", i, seed)); gen_or_matches_case(&mut mrng, i, &mut out); }
     let mut hrng = rng.fork();
-    for i in 0..n / 8 { gen_hoist_case(&mut hrng, i, &mut out); }
+    for i in 0..n / 8 { now_at(format!("hoisting case {} (seed {})", i, seed)); gen_hoist_case(&mut hrng, i, &mut out); }
+    *CURRENT.lock().unwrap() = None;
 
     out.shards.flush();
     if let Some(p) = dump_path { std::fs::write(p, out.dump.clone().unwrap_or_default().as_bytes()).unwrap(); }
